@@ -8,12 +8,15 @@ from ..pathcond import implied
 from .C03 import sle_rules
 
 MANIFEST = {
-    'technique': 'contradiction rule on tolerance comparisons (a difference compared with a tolerance must be two-sided), typestate rule "the remembered LLE solution is one unit", simultaneous-swap rule for the top-chemical relabelling, paired-write and clamp rules for SLE',
-    'text': 'Decides for every input: every comparison of a difference with a cache tolerance in the reuse decision of LLE is two-sided (abs or both '
-            'signs); on every path that stores partition coefficients the phase fraction, chemicals, composition and temperature they belong to are '
-            'stored with them (or the coefficients are reset); the top-chemical relabelling swaps both liquids simultaneously; SLE writes only the '
-            'solute at paired indices summing to the solute total, clamps the solubility into [0, x_max] and sends a pure solute entirely to one phase '
-            'by comparing T with Tm. Equal activities, scaling and numerical agreement of cached and uncached results are not decided.',
+    'technique': 'contradiction rule on tolerance comparisons (a difference compared with a tolerance must be two-sided), typestate rule "the remembered LLE solution is '
+            'one unit", simultaneous-swap rule for the top-chemical relabelling, paired-write and clamp rules for SLE; dead-store rule in the iteration kernels; '
+            'guarded-read rule for state carried from call to call',
+    'text': 'Decides for every input: every comparison of a difference with a cache tolerance in the reuse decision of LLE is two-sided (abs or both signs); on '
+            'every path that stores partition coefficients the phase fraction, chemicals, composition and temperature they belong to are stored with them (or the '
+            'coefficients are reset); the top-chemical relabelling swaps both liquids simultaneously; SLE writes only the solute at paired indices summing to the '
+            'solute total, clamps the solubility into [0, x_max] and sends a pure solute entirely to one phase by comparing T with Tm; LLE.__call__ reads a field '
+            'it also writes only inside a validity test, under a branch guarded by one, or after writing it in the same call. Equal activities, scaling and '
+            'numerical agreement of cached and uncached results are not decided.',
 }
 
 LLEF = 'thermosteam/equilibrium/lle.py'
@@ -30,6 +33,8 @@ def run(ctx):
         'D4 SLE: only the solute is written, paired with the solute total; solubility clamped into [0, x_max]',
         'D5 pure-solute branch compares T with Tm and writes all-liquid or all-solid',
         'D6 no update of the LLE iterate is overwritten before it is read (dead store = the state keeps its initial/remembered value)',
+        'D7 LLE.__call__ reads a field it also writes (state carried from call to call) only inside a validity test, under a branch '
+        'guarded by such a test, or after writing it in the same call',
     ]
     ctx.not_decided = ['equality of activities in both liquids', 'proportionality under feed scaling', 'numerical agreement of cached vs uncached splits']
     d1 = ctx.rule('D1', 'two-sided tolerance tests', floor=2)
@@ -41,6 +46,8 @@ def run(ctx):
     dead_stores(ctx, d6)
     lle = prog.cls('LLE', LLEF)
     f = lle.methods['__call__']
+    d7 = ctx.rule('D7', 'state remembered from an earlier call is read only under a validity test', floor=6)
+    history_reads(ctx, d7, f)
 
     # ---- D1
     n = 0
@@ -241,3 +248,96 @@ def _inside_top(node):
             return True
         n = getattr(n, '_parent', None)
     return False
+
+
+def history_reads(ctx, rule, f):
+    """Fields that LLE.__call__ itself writes survive to the next call on the same object.  The result of a call may
+    depend on them only through a validated reuse: the read is (i) part of a test (or of the definition of a flag that
+    is tested), (ii) dominated by the true-branch of a test whose definition compares such a field with this call's
+    inputs, or (iii) preceded on every path by a write in this call.  Any other read makes the result depend on what
+    the object was asked before (e.g. a lookup table built for the chemicals of the first call)."""
+    from ..cfg import CFG, header_exprs
+    fn = f.node
+    fields = set()
+    for n in walk_no_nested(fn):
+        if isinstance(n, (ast.Assign, ast.AugAssign)):
+            for t in (n.targets if isinstance(n, ast.Assign) else [n.target]):
+                for x in ([t] if not isinstance(t, ast.Tuple) else t.elts):
+                    if isinstance(x, ast.Attribute) and src(x.value) == 'self':
+                        fields.add(x.attr)
+    if len(fields) < 4:
+        raise AnalysisError('LLE.__call__: expected >= 4 fields carried from call to call, found %s' % sorted(fields))
+    # flags: names whose definition contains a comparison of a carried field, and that are used as a test
+    def compares_field(e):
+        for x in ast.walk(e):
+            if isinstance(x, ast.Compare):
+                for y in ast.walk(x):
+                    if isinstance(y, ast.Attribute) and src(y.value) == 'self' and y.attr in fields:
+                        return True
+        return False
+    flagdefs = {}
+    for n in walk_no_nested(fn):
+        if isinstance(n, ast.Assign) and len(n.targets) == 1 and isinstance(n.targets[0], ast.Name) and compares_field(n.value):
+            flagdefs.setdefault(n.targets[0].id, []).append(n)
+    # a flag is validated only if EVERY assignment to it has that form
+    for n in walk_no_nested(fn):
+        if isinstance(n, ast.Assign):
+            for t in n.targets:
+                if isinstance(t, ast.Name) and t.id in flagdefs and n not in flagdefs[t.id]:
+                    flagdefs.pop(t.id)
+    cfg = CFG(fn)
+
+    def stmt_of(x):
+        while not isinstance(x, ast.stmt):
+            x = x._parent
+        return x
+
+    def in_test(x):
+        """x lies inside the test of an if/while/conditional expression, or in the definition of a validated flag"""
+        y = x
+        while not isinstance(y, ast.stmt):
+            par = y._parent
+            if isinstance(par, (ast.If, ast.While, ast.IfExp)) and par.test is y:
+                return True
+            y = par
+        return isinstance(y, ast.Assign) and len(y.targets) == 1 and isinstance(y.targets[0], ast.Name) and y.targets[0].id in flagdefs
+
+    def guarded(x):
+        """some enclosing if-body is entered only when a validity test holds"""
+        y = x
+        while y is not fn:
+            par = y._parent
+            if isinstance(par, ast.If) and y in par.body:
+                t = par.test
+                if compares_field(t) or (isinstance(t, ast.Name) and t.id in flagdefs):
+                    return src(t)
+            y = par
+        return None
+    for n in walk_no_nested(fn):
+        if not (isinstance(n, ast.Attribute) and isinstance(n.ctx, ast.Load) and src(n.value) == 'self' and n.attr in fields):
+            continue
+        st = stmt_of(n)
+        cons = 'LLE.__call__'
+        if in_test(n):
+            rule.ok(cons, 'self.%s is read inside a validity test' % n.attr, f, st)
+            continue
+        g = guarded(n)
+        if g:
+            rule.ok(cons, 'self.%s is read under the validity test %s' % (n.attr, g), f, st)
+            continue
+        node = cfg.node_of(st)
+
+        def writes(nd, a=n.attr):
+            if nd.kind != 'stmt' or nd is node:
+                return False
+            s_ = nd.ast
+            return isinstance(s_, (ast.Assign, ast.AugAssign)) and any(
+                isinstance(x, ast.Attribute) and src(x.value) == 'self' and x.attr == a
+                for t in (s_.targets if isinstance(s_, ast.Assign) else [s_.target]) for x in ([t] if not isinstance(t, ast.Tuple) else t.elts))
+        okk, wit = cfg.must_pass(cfg.entry, writes, goal=node)
+        if okk:
+            rule.ok(cons, 'self.%s is read after being written in this call on every path' % n.attr, f, st)
+        else:
+            rule.fail(cons, 'unvalidated-history-read-%s' % n.attr,
+                      'self.%s is written by __call__ (so it survives to the next call) and is read here without any validity test and without a write '
+                      'earlier in this call: the result depends on what this object was asked before' % n.attr, f, st)
